@@ -110,7 +110,7 @@ def check_case(ctx, g, model=None, thr=None, exact_ok=True, limit=10.0):
         for prune, r in ((False, r_np), (True, r_p)):
             model.add("reach", dict(wire.game_payload(g, thr=t), prune=prune, digits=digits),
                       expect=r, inp={"game": gen.desc(g)} if small else {"meta": g.get("_meta")},
-                      suite="corr.reach")
+                      suite="corr.reach", cmp=wire.staged(ctx, {"outcome", "probs"}))
 
 
 def fan_case(ctx, g):
